@@ -178,8 +178,13 @@ func c04Exec(in c04Input) (outcome, detail string) {
 		return "ok", ""
 	case "client":
 		cc := core.NewClientContext()
-		dt, _ := c04Dest(in.Dest)
-		cc.Init(core.NewClient("verif://x"), dt)
+		dt, _ := c04Dest(strings.TrimPrefix(in.Dest, "pair:"))
+		if strings.HasPrefix(in.Dest, "pair:") {
+			// several declared results: the response is read as a list, element by element
+			cc.Init(core.NewClient("verif://x"), reflect.TypeOf(0), dt)
+		} else {
+			cc.Init(core.NewClient("verif://x"), dt)
+		}
 		_, err := core.NewClientCodec().Decode(b, cc)
 		if err != nil {
 			return "error", err.Error()
@@ -421,6 +426,13 @@ func runC04(a Args) tr.Summary {
 				entries = []string{"unmarshal", "reader"}
 			}
 		}
+		if entries[0] == "client" {
+			for _, d := range append([]string(nil), dests...) {
+				if !strings.Contains(d, "+") {
+					dests = append(dests, "pair:"+d)
+				}
+			}
+		}
 		for _, d := range dests {
 			for _, e := range entries {
 				for _, mode := range []string{"ref"} {
@@ -437,7 +449,10 @@ func runC04(a Args) tr.Summary {
 		in.ID = 1
 		inputs = []c04Input{in}
 	} else {
-		for _, b := range c04Corpus() {
+		// responses with several results (the client codec reads them as a list), and their neighbourhood
+		multi := [][]byte{[]byte("Ra2{1s2\"ab\"}z"), []byte("Ra3{1s2\"ab\"r1;}z"), []byte("Ra2{i7;a2{12}}z"), []byte("Ra1{1}z"), []byte("Ra{}z"),
+			[]byte("Ra2{r0;1}z"), []byte("Ra-1{}z"), []byte("Ra2{1r0;}z"), []byte("Hm1{s6\"simple\"t}Ra2{1ua}z")}
+		for _, b := range append(c04Corpus(), multi...) {
 			addInput(b, "valid")
 			for k, l := range c04Mutations(b, rng, thorough) {
 				for _, x := range l {
